@@ -8,6 +8,7 @@ import DateutilVerif.Proofs.RRuleGenRebuild
 import DateutilVerif.Proofs.RRuleGenDaysets
 import DateutilVerif.Proofs.RRuleGenCached
 import DateutilVerif.Proofs.RRuleGenUse
+import DateutilVerif.Properties.C01
 
 namespace C01
 open RRule RrPy RRule.Tables
@@ -136,6 +137,26 @@ example : ((Gen.rebuild { (default : Rule) with freq := 2 } {} 1997 9).bind fun 
     .ok (244, 250, [none, some 244, some 245, some 246, some 247, some 248, some 249, none]) := by decide +kernel
 example : ((Gen.rebuild { (default : Rule) with freq := 1 } {} 2024 2).bind fun s =>
       (Gen.mdayset { (default : Rule) with freq := 1 } s 2024 2 1).map fun t => (t.2.1, t.2.2)) = .ok (31, 60) := by decide +kernel
+
+/-! ### a C01 theorem carried over to the code as written now -/
+
+/-- `C01.masks_are_dates` read on the TRANSLATED `rebuild`: after any history of successful calls, the slots the code
+    leaves for year `y` hold, at every index `i < yearlen + 7`, the month / day / day-from-month-end / weekday of the date
+    with ordinal `toOrdinal y 1 1 + i` (every year 1..9999). -/
+theorem gen_rebuild_masks_are_dates (r : Rule) (calls : List (Int × Int)) (st0 : RrPy.II)
+    (hh : RRuleGen.history r calls = .ok st0) (y m : Int) (st : RrPy.II) (hst : Gen.rebuild r st0 y m = .ok st)
+    (i : Int) (h0 : 0 ≤ i) (h1 : i < st.yearlen + 7) :
+    st.yearordinal = Cal.toOrdinal y 1 1 ∧ st.yearlen = Cal.daysInYear y ∧
+    Py.getIdx st.mmask i = .ok (Cal.fromOrdinal (st.yearordinal + i)).2.1 ∧
+    Py.getIdx st.mdaymask i = .ok (Cal.fromOrdinal (st.yearordinal + i)).2.2 ∧
+    Py.getIdx st.nmdaymask i = .ok ((Cal.fromOrdinal (st.yearordinal + i)).2.2 -
+        Cal.daysInMonth (Cal.fromOrdinal (st.yearordinal + i)).1 (Cal.fromOrdinal (st.yearordinal + i)).2.1 - 1) ∧
+    Py.getIdx st.wdaymask i = .ok (Cal.weekdayOfOrd (st.yearordinal + i)) := by
+  have hmodel : RRule.rebuild r y m = .ok st.toInfo := by
+    have := gen_rebuild_any_history r calls st0 hh y m
+    rw [hst] at this
+    exact this.symm
+  exact C01.masks_are_dates r y m st.toInfo hmodel i h0 h1
 
 /-! ### as `rrule._iter` uses them: no side condition left -/
 
